@@ -602,9 +602,43 @@ class Extractor:
                 it['srck'] = 'zeros'
                 it['src'] = 'zeros'
                 it['zeros_n'] = subst_poly(z, subst)
+                # a byte count spelled as the buffer's own size() is its element count
+                own = (substitute(R.render(m['obj']), subst) + '.size', R.render(m['obj']) + '.size')
+
+                def own_size_z(w):
+                    if w is None:
+                        return w
+                    o2 = {}
+                    for mono, c in w.items():
+                        if len(mono) == 1 and mono[0] in own:
+                            for m2, c2 in it['zeros_n'].items():
+                                o2[m2] = o2.get(m2, 0) + c * c2
+                        else:
+                            o2[mono] = o2.get(mono, 0) + c
+                    return {k: v for k, v in o2.items() if v != 0}
+                it['width'] = own_size_z(it.get('width'))
+                it['width_alts'] = [own_size_z(w) for w in it.get('width_alts', [])]
             else:
                 it['srck'] = 'other'
                 it['src'] = substitute(R.render(args[0]), subst)
+                sz = sized_buffer(f, m['obj'], R)
+                if sz is not None:
+                    own = (substitute(R.render(m['obj']), subst) + '.size', R.render(m['obj']) + '.size', 'local:%s.size' % f.nodes[f.strip(m['obj'], 'all')].get('decl', {}).get('name'))
+                    szp = subst_poly(sz, subst)
+
+                    def own_size_b(w):
+                        if w is None:
+                            return w
+                        o2 = {}
+                        for mono, c in w.items():
+                            if len(mono) == 1 and mono[0] in own:
+                                for m2, c2 in szp.items():
+                                    o2[m2] = o2.get(m2, 0) + c * c2
+                            else:
+                                o2[mono] = o2.get(mono, 0) + c
+                        return {k: v for k, v in o2.items() if v != 0}
+                    it['width'] = own_size_b(it.get('width'))
+                    it['width_alts'] = [own_size_b(w) for w in it.get('width_alts', [])]
         elif m['k'] == 'CXXMemberCallExpr' and m['callee']['name'] in ('c_str', 'data') and m['callee'].get('classq') in ('std::basic_string', 'std::vector') and \
                 filled_buffer(f, m['obj'], R) is not None and filled_buffer(f, m['obj'], R)[1] != 0:
             n_, ch_ = filled_buffer(f, m['obj'], R)
@@ -680,6 +714,31 @@ def filled_buffer(f, obj, R):
     else:
         code = int(fill['cv'])
     return P.poly(f, c['args'][0], R), code
+
+
+def sized_buffer(f, obj, R):
+    """obj is a local std::vector / std::string constructed with a count (N [, value]) and never
+    resized afterwards (its elements may be overwritten): -> poly of N, else None"""
+    n = f.nodes[f.strip(obj, 'all')]
+    if n['k'] != 'DeclRefExpr' or n['decl'].get('dk') != 'local':
+        return None
+    init = local_init(f, n['decl']['id'])
+    if init is None:
+        return None
+    c = f.nodes[f.strip(init, 'noop')]
+    while c['k'] in ('ExprWithCleanups', 'MaterializeTemporaryExpr', 'CXXBindTemporaryExpr') and c['ch']:
+        c = f.nodes[f.strip(c['ch'][0], 'noop')]
+    if c['k'] not in ('CXXConstructExpr', 'CXXTemporaryObjectExpr') or not c.get('args'):
+        return None
+    a0 = f.nodes[f.strip(c['args'][0], 'noop')]
+    if a0.get('tc') not in ('u', 's'):
+        return None
+    for x in f.calls():
+        if x.get('obj') is not None and x['callee']['name'] in ('resize', 'push_back', 'emplace_back', 'insert', 'erase', 'clear', 'assign', 'pop_back', 'operator=', 'swap', 'reserve', 'append', 'operator+='):
+            o = f.nodes[f.strip(x['obj'], 'all')]
+            if o['k'] == 'DeclRefExpr' and o['decl'].get('id') == n['decl']['id']:
+                return None
+    return P.poly(f, c['args'][0], R)
 
 
 def zero_vector(f, obj, R):
